@@ -22,6 +22,7 @@ func checkC07(c *Ctx) {
 	c07ScopePushPop(c)
 	c07VarsEntry(c)
 	c07CollectLoops(c)
+	c07WalkFlags(c)
 	c.NotCovered("that a reported traversal has the right steps; equality of diagnostics under a pruned scope")
 	c.NotCovered("hand-built ASTs whose ObjectConsKeyExpr literal-key condition differs between Value and walkChildNodes")
 }
@@ -1809,4 +1810,162 @@ func c07CollectLoops(c *Ctx) {
 		}
 	}
 	c.Floor("vars.everyitem loops", n, 3, "exprWrap.Variables, the dynblock walkers, hcldec variable collection")
+}
+
+// R11 walk.flags: a boolean field of the node that Value consults before it evaluates a
+// sub-expression is consulted by walkChildNodes before it decides not to walk it.
+func c07WalkFlags(c *Ctx) {
+	c.Rule("R11 walk.flags: for every hclsyntax node type, if walkChildNodes visits an expression field only under a condition, then every boolean field of the node that Value reads in a condition on the way to evaluating that field is also read in a condition on the way to visiting it: the walk cannot skip a sub-expression by a test that ignores a flag which makes Value evaluate it")
+	pkg := c.P.Pkg("hclsyntax")
+	if pkg == nil {
+		c.CheckerFail("walk.flags", "hclsyntax not loaded")
+		return
+	}
+	boolFlags := func(fn *ssa.Function, at *ssa.BasicBlock) map[string]bool {
+		out := map[string]bool{}
+		recv := fn.Params[0]
+		var scan func(v ssa.Value, d int)
+		scan = func(v ssa.Value, d int) {
+			if v == nil || d > 6 {
+				return
+			}
+			switch x := v.(type) {
+			case *ssa.UnOp:
+				if x.Op == token.MUL {
+					if fa, ok := x.X.(*ssa.FieldAddr); ok && (fa.X == ssa.Value(recv) || isSpillOf(fa.X, recv)) {
+						if fv := fieldVarOf(fa.X.Type(), fa.Field); fv != nil {
+							if bt, ok := fv.Type().Underlying().(*types.Basic); ok && bt.Kind() == types.Bool {
+								out[fv.Name()] = true
+							}
+						}
+						return
+					}
+				}
+				scan(x.X, d+1)
+			case *ssa.BinOp:
+				scan(x.X, d+1)
+				scan(x.Y, d+1)
+			case *ssa.Phi:
+				for _, e := range x.Edges {
+					scan(e, d+1)
+				}
+			}
+		}
+		for b := at; b != nil; b = b.Idom() {
+			if dom := b.Idom(); dom != nil {
+				if iff, ok := dom.Instrs[len(dom.Instrs)-1].(*ssa.If); ok {
+					scan(iff.Cond, 0)
+				}
+			}
+		}
+		return out
+	}
+	// conditional: the function can return without passing through b, other than by leaving a
+	// loop that contains b before its first iteration (an empty range)
+	conditional := func(b *ssa.BasicBlock) bool {
+		fn := b.Parent()
+		inLoopWith := map[*ssa.BasicBlock]bool{}
+		for _, scc := range sccBlocks(fn.Blocks, nil) {
+			has := false
+			for _, x := range scc {
+				if x == b {
+					has = true
+				}
+			}
+			if has && len(scc) > 1 {
+				for _, x := range scc {
+					inLoopWith[x] = true
+				}
+			}
+		}
+		seen := map[*ssa.BasicBlock]bool{}
+		var reach func(x *ssa.BasicBlock) bool
+		reach = func(x *ssa.BasicBlock) bool {
+			if x == b || seen[x] {
+				return false
+			}
+			seen[x] = true
+			if inLoopWith[x] {
+				return false // entering the loop that holds b: its exit test is not a condition on visiting
+			}
+			if _, isRet := x.Instrs[len(x.Instrs)-1].(*ssa.Return); isRet {
+				return true
+			}
+			for _, su := range x.Succs {
+				if reach(su) {
+					return true
+				}
+			}
+			return false
+		}
+		return reach(fn.Blocks[0])
+	}
+	n := 0
+	sc := pkg.Types.Scope()
+	for _, name := range sc.Names() {
+		tn, ok := sc.Lookup(name).(*types.TypeName)
+		if !ok {
+			continue
+		}
+		val := c.P.LookupFunc("hclsyntax", name+".Value")
+		wcn := c.P.LookupFunc("hclsyntax", name+".walkChildNodes")
+		if val == nil || wcn == nil || val.Signature.Recv() == nil || namedOf(val.Signature.Recv().Type()) != tn.Type() || len(wcn.Params) < 2 {
+			continue
+		}
+		w := wcn.Params[len(wcn.Params)-1]
+		// flags on the way to each walk call, per field
+		walkFlags := map[*types.Var]map[string]bool{}
+		for _, b := range wcn.Blocks {
+			for _, ins := range b.Instrs {
+				call, ok := ins.(*ssa.Call)
+				if !ok || call.Call.Value != ssa.Value(w) || len(call.Call.Args) != 1 || !conditional(b) {
+					continue
+				}
+				for _, fv := range exprFieldsOf(call.Call.Args[0]) {
+					if walkFlags[fv] == nil {
+						walkFlags[fv] = map[string]bool{}
+					}
+					for k := range boolFlags(wcn, b) {
+						walkFlags[fv][k] = true
+					}
+				}
+			}
+		}
+		if len(walkFlags) == 0 {
+			continue
+		}
+		// flags on the way to each evaluation in Value
+		evalFlags := map[*types.Var]map[string]bool{}
+		for _, b := range val.Blocks {
+			for _, ins := range b.Instrs {
+				call, ok := ins.(*ssa.Call)
+				if !ok || !call.Call.IsInvoke() || call.Call.Method.Name() != "Value" {
+					continue
+				}
+				for _, fv := range exprFieldsOf(call.Call.Value) {
+					if evalFlags[fv] == nil {
+						evalFlags[fv] = map[string]bool{}
+					}
+					for k := range boolFlags(val, b) {
+						evalFlags[fv][k] = true
+					}
+				}
+			}
+		}
+		for fv, wf := range walkFlags {
+			n++
+			c.Sites++
+			c.Fn(FuncName(wcn))
+			var missing []string
+			for k := range evalFlags[fv] {
+				if !wf[k] {
+					missing = append(missing, k)
+				}
+			}
+			sort.Strings(missing)
+			c.Check(len(missing) == 0, "walk.flags", fmt.Sprintf("hclsyntax.%s:field[%s]", name, fv.Name()), wcn.Pos(), "the walk consults every flag Value consults",
+				"walkChildNodes visits "+fv.Name()+" only under a condition that does not read "+strings.Join(missing, ", ")+", which Value reads before it evaluates "+fv.Name()+": when the flag makes Value evaluate the expression although the walk's own test says otherwise, its variables are not reported")
+		}
+	}
+	c.Floor("walk.flags conditional walks", n, 1, "ObjectConsKeyExpr")
 }
